@@ -324,7 +324,13 @@ FamAbsOps ==
 
 \* undefined field under a union member / interface member reached through a condition-less fragment (C10, reflection only)
 FamDefectsAbs ==
-  { Plain("defectabs", s) : s \in {
+  \* one selection resolved in containers of different types (members of a list of an interface / union type): an argument
+  \* only one of the implementors declares is an undeclared argument for the members of the other type
+  { Plain("defectabs", <<FS("", top, <<FA("", "say", <<a>>), F("", "name")>>)>>) :
+      top \in {"named", "any"}, a \in {Arg("mood", IntV(1)), Arg("loud", BoolV(TRUE)), Arg("zz", IntV(1))} }
+  \cup { Case("defectabs", DocF(<<FS("", top, <<Spr("F")>>)>>, <<Frg("F", "Named", <<FA("s", "say", <<a>>)>>)>>), "", NoVars, {}) :
+           top \in {"named", "any", "one", "a"}, a \in {Arg("mood", IntV(1)), Arg("loud", BoolV(TRUE))} }
+  \cup { Plain("defectabs", s) : s \in {
       <<FS("", "any", <<Inl("", <<F("", "flag")>>), TN>>)>>,
       <<FS("", "any", <<Inl("B", <<F("", "flag")>>), Inl("", <<F("", "n")>>)>>)>>,
       <<FS("", "named", <<F("", "name"), Inl("A", <<F("", "nope")>>)>>)>>,
